@@ -30,7 +30,6 @@ ASSUMPTIONS = [
     "liquidator and liquidatee are different accounts (the real program cannot load the same account mutably twice)",
     "token movement is modelled as balance arithmetic with the SPL Token-2022 transfer-fee function (TransferFee.v, compared with the real library in C03's prefee suite); the real SPL token programs run behind the CPI stub in the sim runtime",
     "pass-through banks of third-party venues (Kamino/Drift/Solend asset tags) are outside C01 (the property excludes them); the handlers reject them (WrongAssetTagForStandardInstructions)",
-    "the risk-admin token-less repay_all path (sanctioned exception) is modelled and covered by the theorem but not exercised by the level-C generator (the signer is the account authority)",
 ]
 OBSERVATIONS = [
     "accrual credits depositors floor-rounded interest and books three fee buckets each rounded separately: the proved allowance per accrual is L + tls + asv'/asv + 3 units of 2^-96 token, i.e. about 2^-47 token per token of liabilities",
@@ -79,12 +78,17 @@ def oracle(suite, case, impl):
     if v:
         return v
     i = -1
+    ra = -1
     for op, res, b0, a0, b1, a1, now, prices in O.walk(tr):
         i += 1
+        if op[0] == 20:
+            ra = op[1]
         if res != "OK":
             continue
         refs = tr.refs[i] if tr.with_refs else None
         for k in range(tr.nb):
+            if op[0] == 4 and op[4] == 1 and op[2] == k and ra == op[1] and b0[k]["flags"] & 32:
+                continue                                  # sanctioned: risk admin's token-less repay_all on a flagged bank
             if op[0] == 18 and op[2] == k and b1[k]["op_state"] == 3:
                 continue                                  # sanctioned: bank wiped out and killed
             if b0[k]["asv"] <= 0:
